@@ -14,7 +14,7 @@ DESCRIPTION = {
              "none after a fatal error; first attempt on a transport without delay, later gaps <= max_retry_delay; after a failed/lost connection a new attempt appears within "
              "max_retry_delay while any transport has budget; start()'s result completes exactly once - success on normal leave / main finished / stop(), error when main fails or "
              "all transports are exhausted - and never earlier; connect/join/ready/leave/disconnect listeners fire for every session created.  The peer may reset the connection after a GOODBYE exchange; no attempt may follow a session that left normally.  Non-trivial = >=2 failed attempts "
-             "followed by a join or exhaustion, or stop() during a delay/connect; distinct by (config, outcome sequence, stop point)."),
+             "followed by a join or exhaustion, or stop() during a delay/connect; distinct by (config, outcome sequence, stop point). Outcome 'lost-before-welcome': the transport is up, the session has said HELLO, then the connection breaks uncleanly before the router answered (a clean close at that point is treated by the component as done; the statement does not list it and it is not generated)."),
     "assumptions": ["arg-less random.seed() calls made by WebSocket factories are routed to a case-derived seed inside the worker so that the jitter is a function of the case", "exact delay values (jitter is random by design) are not asserted, only the bounds", "time advances only through the harness; unbounded liveness is checked as bounded liveness"],
 }
 
